@@ -2,6 +2,8 @@
 
 from __future__ import annotations
 
+from mc.callers import clear_lru  # noqa: E402
+
 from math import comb
 
 from checks.common import *  # noqa: F401,F403
@@ -19,7 +21,8 @@ RULE = (
     "k in {0,1,2,3,0.5,-1,2.5}, constant sub-expressions, parameters); each recipe is rebuilt fresh and "
     "classified by the recursive and by the iterative traversal through e.degree, compute_degree, is_linear, "
     "is_quadratic, Expression.is_linear, Problem._is_linear_problem and Problem._auto_select_method, and once more "
-    "after every sub-expression object has been classified bottom-up on shared objects (non-initial degree caches) "
+    "after every sub-expression object has been classified bottom-up on shared objects (non-initial degree caches), "
+    "and in four query orders on ONE object (threshold questions before the exact degree) "
     "(transitions = those API calls + builder ops); recipes holding a Parameter are also classified at p in {2, 1, 0}, "
     "the parameter is then set to another value and the same objects classified again.  Oracle: exact polynomial over Fractions (mc/alg.py PolyAlg); "
     "a reported degree d needs an exact polynomial of total degree <= d, and every alarm carries a witness (an "
@@ -210,7 +213,7 @@ def check_recipe(r, tier, seed, rep=None, want=None):
     for trav, thr in (("recursive", None), ("iterative", 0)):
         ctxs = threshold(thr, analysis) if thr is not None else threshold(analysis._RECURSION_THRESHOLD, analysis)
         with ctxs:
-            analysis._compute_degree_cached.cache_clear()
+            clear_lru(analysis)
             observe(trav + "/degree", lambda: fresh().degree)
             observe(trav + "/compute_degree", lambda: analysis.compute_degree(fresh()))
             observe(trav + "/is_linear", lambda: 1 if analysis.is_linear(fresh()) else None)
@@ -228,7 +231,7 @@ def check_recipe(r, tier, seed, rep=None, want=None):
 
             observe(trav + "/Problem._is_linear_problem", lin_problem)
             observe(trav + "/Problem._auto_select_method", auto_method)
-    analysis._compute_degree_cached.cache_clear()
+    clear_lru(analysis)
     # non-initial states: every sub-expression object is classified BEFORE the expression that contains it
     # (a user inspects a term, or solved a model containing it, and then reuses the same object)
     from mc.interp import walk, kind_of
@@ -238,7 +241,7 @@ def check_recipe(r, tier, seed, rep=None, want=None):
     for trav, thr in (("recursive", None), ("iterative", 0)):
         ctxs = threshold(thr, analysis) if thr is not None else threshold(analysis._RECURSION_THRESHOLD, analysis)
         with ctxs:
-            analysis._compute_degree_cached.cache_clear()
+            clear_lru(analysis)
             try:
                 bshared = Builder(params=params, share_scalars=True)
                 root = bshared.build(r)
@@ -254,7 +257,36 @@ def check_recipe(r, tier, seed, rep=None, want=None):
                     reported[trav + "/is_linear-after-subexpression-queries"] = 1 if root.is_linear() else None
             except Exception as ex:
                 fails.add("exception:bottom-up:" + type(ex).__name__, msg=str(ex)[:200])
-    analysis._compute_degree_cached.cache_clear()
+    clear_lru(analysis)
+    # query ORDER on one object: a threshold question (is_linear / is_quadratic / a Problem's routing decision) asked
+    # first, the exact degree afterwards - every answer is about the same object
+    for order in (("is_linear", "is_quadratic", "degree"), ("is_quadratic", "degree", "is_linear"),
+                  ("Expression.is_linear", "degree", "compute_degree"), ("problem", "degree", "is_quadratic")):
+        try:
+            clear_lru(analysis)
+            e1 = fresh()
+            for q in order:
+                lab = "after-" + "-".join(order[:order.index(q)]) + "/" + q if order.index(q) else None
+                if q == "is_linear":
+                    val = 1 if analysis.is_linear(e1) else None
+                elif q == "Expression.is_linear":
+                    val = 1 if e1.is_linear() else None
+                elif q == "is_quadratic":
+                    val = 2 if analysis.is_quadratic(e1) else None
+                elif q == "degree":
+                    val = e1.degree
+                elif q == "compute_degree":
+                    val = analysis.compute_degree(e1)
+                else:
+                    Problem().minimize(e1)._is_linear_problem()
+                    val = None
+                if lab is not None:
+                    reported[lab] = val
+                if rep:
+                    rep.transitions += 1
+        except Exception as ex:
+            fails.add("exception:query-order:" + type(ex).__name__, msg=str(ex)[:200], order=order)
+    clear_lru(analysis)
     if rep:
         rep.states += 1
         rep.transitions += size(r)
@@ -306,7 +338,7 @@ def check_param_phase(r, tier, seed, rep=None, want=None):
             e = b.build(r)
             if not isinstance(e, Expression):
                 return fails
-            analysis._compute_degree_cached.cache_clear()
+            clear_lru(analysis)
             first = (e.degree, analysis.compute_degree(e), e.is_linear(), analysis.is_quadratic(e))
             for pn in pnames:
                 b.parameter(pn).set(p1)
@@ -316,7 +348,7 @@ def check_param_phase(r, tier, seed, rep=None, want=None):
             fails.add("exception:param-phase:" + type(ex).__name__, msg=str(ex)[:200], built_at=p0, now=p1)
             continue
         finally:
-            analysis._compute_degree_cached.cache_clear()
+            clear_lru(analysis)
         if rep:
             rep.transitions += 8 + len(pnames)
         params = {pn: p1 for pn in pnames}
